@@ -29,13 +29,13 @@ PROXY_HEADER_SETS = [
 ]
 
 
-PROXY_VERIFY = ["default", "assert-match", "assert-other", "assert-notproxy", "assert-false", "pin-right", "pin-wrong", "ctx-trusting", "ctx-empty", "shared-ctx-assert", "shared-ctx-pin", "shared-ctx-assert", "shared-ctx-pin"]  # shared-ctx-*: ONE SSLContext object for the proxy leg and the origin
+PROXY_VERIFY = ["ctx-empty+ca_certs", "ctx-empty+ca_cert_data", "default", "assert-match", "assert-other", "assert-notproxy", "assert-false", "pin-right", "pin-wrong", "ctx-trusting", "ctx-empty", "shared-ctx-assert", "shared-ctx-pin", "shared-ctx-assert", "shared-ctx-pin"]  # shared-ctx-*: ONE SSLContext object for the proxy leg and the origin
 
 
 def proxy_leg_ok(case: dict[str, typing.Any]) -> bool:
     """Reference for the TLS leg to an https proxy: chain against the configured CAs, then name or pin."""
     pv = case.get("proxy_verify", "default")
-    if case["proxy_cert"] == "untrusted" or pv == "ctx-empty":
+    if case["proxy_cert"] == "untrusted" or pv in ("ctx-empty", "ctx-empty+ca_certs", "ctx-empty+ca_cert_data"):
         return False
     san = "proxy.test" if case["proxy_cert"] == "ok" else "notproxy.test"
     if pv in ("pin-right", "assert-false", "shared-ctx-pin"):
@@ -154,6 +154,12 @@ def run_case(rec: Recorder, case: dict[str, typing.Any], certs: tlsnet.Certs) ->
                     kw["proxy_assert_hostname"] = "proxy.test"
                 else:
                     kw["proxy_assert_fingerprint"] = hashlib.sha256(der).hexdigest()
+            elif pv in ("ctx-empty+ca_certs", "ctx-empty+ca_cert_data"):
+                # the proxy has a context of its own that trusts no CA; the CA bundle given beside it is for origins
+                if pv == "ctx-empty+ca_cert_data":
+                    del kw["ca_certs"]
+                    kw["ca_cert_data"] = certs.ca_data
+                kw["proxy_ssl_context"] = create_urllib3_context()
             elif pv in ("ctx-trusting", "ctx-empty"):
                 # CAs come from the contexts only: one for the proxy leg, one for the origin
                 del kw["ca_certs"]
@@ -377,8 +383,9 @@ def run_case(rec: Recorder, case: dict[str, typing.Any], certs: tlsnet.Certs) ->
                         if not isinstance(inner, (ProxyError, SSLError)):
                             bad("refused-connect-class", {"exc": type(exc).__name__, "inner": type(inner).__name__, "reply": last_reply}, f"CONNECT refused with {last_reply} surfaced as {type(inner).__name__}")
                             return
-                    elif not isinstance(inner, (ProxyError, SSLError, ProtocolError)):
-                        bad("refused-connect-class", {"exc": type(exc).__name__, "inner": type(inner).__name__, "reply": last_reply}, f"CONNECT answered with {last_reply} surfaced as {type(inner).__name__}")
+                    elif not isinstance(inner, (ProxyError, SSLError)):
+                        # (a reply that is no HTTP status line, or none at all, is a proxy that did not grant the tunnel as well)
+                        bad("refused-connect-class", {"exc": type(exc).__name__, "inner": type(inner).__name__, "reply": last_reply, "not_a_status_line": True}, f"CONNECT answered with {last_reply} surfaced as {type(inner).__name__}")
                         return
                 elif lastc[0] is not None and case["origin_cert"] != "ok":
                     rec.mon("origin_verification_class")
@@ -450,6 +457,20 @@ def run_shard(ctx: Ctx, rec: Recorder) -> None:
                 continue
             rec.case(case)
             run_case(rec, case, certs)
+        # a destination that is the https proxy's own host:port, next to forwarded traffic on the same manager
+        if ctx.shard == 0:
+            for order in ("forward-first", "tunnel-first"):
+                for ph in (0, 1, 3):
+                    a = {"scheme": "http", "host": "good.test", "port": None, "leaf": "exact", "api": "request", "method": "GET"}
+                    b = {"scheme": "https", "host": "proxy.test", "port": 3128, "leaf": "proxy", "api": "request", "method": "GET"}
+                    reqs = [dict(a), dict(b)] if order == "forward-first" else [dict(b), dict(a)]
+                    for j, r in enumerate(reqs):
+                        r["path"] = f"/secret-{j}?k=app-secret-{j}"
+                    case = {"proxy_scheme": "https", "forwarding": False, "proxy_cert": "ok", "origin_cert": "ok", "connect_replies": [200, 200, 200], "proxy_headers": ph, "close_after": None, "silent_close": False,
+                            "reqs": reqs, "retries": False, "ctor": "ProxyManager", "proxy_url_form": "proxy.test:3128", "proxy_verify": "default"}
+                    rec.case(case)
+                    rec.mon("destination_is_the_proxy")
+                    run_case(rec, case, certs)
         n = ctx.pick(700, 9000)
         for _ in range(n):
             if ctx.out_of_time(0.9):
